@@ -23,6 +23,9 @@ RUN_PROFILES = {
     "uuid_cond_loops": dict(test_ids=False, imm=0.3, max_depth=4,
                             w={"count": 4, "while": 2, "cond": 5, "service": 4, "call": 2, "parallel": 1}),
     "params": dict(params=1.0, w={"count": 4, "parloop": 2, "call": 3, "service": 4}, imm=0.1),
+    # several loop-indexed parameters per call, several parallel loops per task
+    "params_indexed": dict(params=1.0, item_bias=0.8, imm=0.1, max_block=4,
+                           w={"parloop": 5, "count": 3, "call": 3, "service": 3, "cond": 0, "while": 0, "parallel": 1}),
     "hostile_append": dict(params=1.0, mutate="append", w={"count": 4, "parloop": 2, "call": 3}),
     "hostile_clear": dict(params=1.0, mutate="clear", w={"count": 4, "parloop": 2, "call": 3}),
     "hostile_replace": dict(params=1.0, mutate="replace", w={"count": 4, "parloop": 2, "call": 3}),
@@ -65,7 +68,7 @@ PROPS = {
                 profiles=["uuid", "uuid_cond_loops", "loops", "parloop", "parallel", "react_loops"], quick=240, thorough=6000,
                 finding_profiles=["parloop_all"]),
     "C15": dict(kind="run", proj="P_C15", mon="mon_true",
-                profiles=["params", "hostile_append", "hostile_clear", "hostile_replace"],
+                profiles=["params", "params_indexed", "hostile_append", "hostile_clear", "hostile_replace"],
                 quick=240, thorough=6000, finding_profiles=["parloop_all"]),
     "C17": dict(kind="run", proj="P_C17", mon="mon_C17", py_monitor="petri_net_notices",
                 profiles=["observers", "observers_loops"], quick=200, thorough=5000),
